@@ -15,6 +15,11 @@ import (
 const (
 	acpiRev1     uint8 = 0
 	acpiRev2Plus uint8 = 2
+
+	// extRSDPLength is the size of the extended RSDP whose bytes are
+	// covered by its extended checksum. unsafe.Sizeof cannot be used
+	// here as it includes the padding that Go appends to the structure.
+	extRSDPLength uint32 = 36
 )
 
 var (
@@ -233,7 +238,7 @@ checkNextBlock:
 		// System uses ACPI revision > 1 and provides an extended RSDP
 		// which can be accessed at the same place.
 		rsdp2 = (*table.ExtRSDPDescriptor)(unsafe.Pointer(curPtr))
-		if !validTable(curPtr, uint32(unsafe.Sizeof(*rsdp2))) {
+		if !validTable(curPtr, extRSDPLength) {
 			continue
 		}
 
